@@ -2,8 +2,8 @@
 //! Enc: PtraceDumper::{suspend_thread, suspend_threads, resume_thread, resume_threads, Drop,
 //! continue_process}, ptrace_detach.
 //! The syscalls are contract stubs over ghost state; what each stub returns is scripted per
-//! harness instance (an outcome changes control flow, so it is a shape); thread ids and signal
-//! numbers are symbolic.
+//! harness instance (an outcome changes control flow, so it is a shape); the intercepted signal
+//! is chosen symbolically among two, thread ids are concrete.
 use super::util::*;
 use crate::linux::ptrace_dumper::{PtraceDumper, Thread};
 use error_graph::ErrorList;
@@ -199,11 +199,10 @@ fn run<const NT: usize>(scripts: [Script; NT], explicit_resume: bool) {
     let mut threads = Vec::with_capacity(NT);
     unsafe {
         for i in 0..NT {
-            let t: i32 = kani::any();
-            kani::assume(t > 0 && t != PID);
-            for j in 0..i {
-                kani::assume(t != TIDS[j]);
-            }
+            // thread ids are concrete: with symbolic ids the ghost-state lookups (and with them every
+            // Ok/Err outcome) become symbolic and the drop glue of DumperError is expanded at each
+            // dropped error (measured: 14-20 GB); the protocol does not depend on the id values.
+            let t: i32 = 5001 + 7 * i as i32;
             TIDS[i] = t;
             SCRIPTS[i] = scripts[i];
             WAIT_IDX[i] = 0;
